@@ -24,7 +24,7 @@ LEVEL = 'proof'
 DRIVER = 'drv_c14'
 HARNESS = 'c14.cpp'
 SOURCES = ['src/containers/grid/RayTracing.cpp', 'src/containers/grid/GridIndexMapping.cpp']
-PROOF_MODULES = ['RomeaProofs.Properties.C14']
+PROOF_MODULES = ['RomeaProofs.Properties.C14', 'RomeaProofs.Bridge.C14', 'RomeaProofs.Bridge.C14Cor']
 TRUSTED = ['harness/c14.cpp refuses (bad-op) what is undefined behaviour in the library: points outside the extent, '
            'setEndPoint with an origin cell outside the centre table; the model driver applies the same tests',
            'the order in which Eigen adds the squares in Vector3f/Vector3d::norm() (model: Spec.sqNorm) is compiler/Eigen '
@@ -886,3 +886,28 @@ def oracle(case, out, stats):
                 stats['next_stale'] = stats.get('next_stale', 0) + 1
     flush_run()
     return fails
+
+
+# ------------------------------------------------------------------ stage G: the anchored functions themselves, translated (DESIGN.md 2.5b)
+def _bridge_fns(T, D, suf):
+    rec = 'RayCasting<%s, %d>' % (T, D)
+    return [
+        {'cxx': 'RayCasting::next', 'record': rec, 'suffix': suf},
+        {'cxx': 'RayCasting::setOriginPoint', 'record': rec, 'suffix': suf},
+        {'cxx': 'RayCasting::setEndPoint', 'record': rec, 'suffix': suf},
+        {'cxx': 'RayCasting::computeRayNumberOfCells', 'record': rec, 'suffix': suf},
+    ]
+
+
+BRIDGE_SPEC = {
+    'id': 'C14',
+    'sources': ['src/containers/grid/RayTracing.cpp', 'src/containers/grid/GridIndexMapping.cpp'],
+    'imports': ['RomeaModel.Rotation'],       # DoubleConv, should an edit introduce a float <-> double conversion
+    'opens': ['Romea.Rotation'],
+    'functions': _bridge_fns('double', 2, '_d2') + _bridge_fns('double', 3, '_d3') + _bridge_fns('float', 2, '_f2') + _bridge_fns('float', 3, '_f3'),
+}
+
+
+def regen(ctx):
+    import bridge
+    return bridge.regen_bridge(ctx, BRIDGE_SPEC)
